@@ -84,7 +84,7 @@ Print Assumptions T20_3d_has_ignore_extends_overlap.
 
 Example T20_3d_insertion_at_line_start :
   let src := [120; 32; 35; 112; 121; 114; 101; 102; 97; 99; 116; 58; 105; 103; 110; 111; 114; 101; 10; 121; 10]%N in
-  ignored (map fst (ignore_entries src None)) (0, 0)%Z = false /\ has_ignore src None (0, 0)%Z = true
+  existsb (overlaps (0, 0)%Z) (map fst (ignore_entries src None)) = false /\ has_ignore src None (0, 0)%Z = true
   /\ has_ignore src None (19, 19)%Z = false.
 Proof. exact insertion_at_line_start. Qed.
 
